@@ -338,7 +338,7 @@ PROPS = {
     },
     "C16": {
         "rules": [lambda prog, tier: copy.run_shallow(prog), lambda prog, tier: copy.run_params(prog), lambda prog, tier: copy.run_strflags(prog),
-                  lambda prog, tier: copy.run_clobber(prog), lambda prog, tier: nzcount.run(prog, shared_eff(prog)), lambda prog, tier: copy.run_fields(prog, shared_eff(prog)), lambda prog, tier: infmap.run(prog),
+                  lambda prog, tier: copy.run_clobber(prog), lambda prog, tier: nzcount.run(prog, shared_eff(prog)), lambda prog, tier: copy.run_fields(prog, shared_eff(prog)), lambda prog, tier: infmap.run(prog), lambda prog, tier: infmap.run_kept(prog),
                   lambda prog, tier: exact.run(prog, {"COPY": {"roots": ["QScopy_prob_mpq_dbl", "QScopy_prob_mpq_mpf"], "closure": False}},
                                                exceptions={("QScopy_prob_mpq_dbl", "mpq_get_d"): "the conversion to double itself: mpq_get_d truncates to the nearest "
                                                            "double toward zero, within one unit in the last place",
@@ -394,7 +394,7 @@ PROPS = {
                   lambda prog, tier: tokens.run_lp(prog),
                   lambda prog, tier: tokens.run_sections(prog, "mpq_ILLwrite_lp", {"End"}, print_funcs={"mpq_ILLprint_report": 1}, token_ok=lambda t: t[0].isupper()),
                   lambda prog, tier: idxclass.run(prog, scope_units=("lp_mpq.c", "write_lp_mpq.c", "rawlp_mpq.c")),
-                  lambda prog, tier: sentinel.run(prog), lambda prog, tier: rescan.run(prog), lambda prog, tier: decacc.run(prog), lambda prog, tier: kwtable.run(prog), lambda prog, tier: hitused.run(prog), lambda prog, tier: defaults.run(prog), lambda prog, tier: defaults.run_bndflag(prog),
+                  lambda prog, tier: sentinel.run(prog), lambda prog, tier: rescan.run(prog), lambda prog, tier: decacc.run(prog), lambda prog, tier: kwtable.run(prog), lambda prog, tier: hitused.run(prog), lambda prog, tier: defaults.run(prog), lambda prog, tier: defaults.run_bndflag(prog), lambda prog, tier: defaults.run_msgmeans(prog),
                   lambda prog, tier: fullscan.run(prog, ["mpq_ILLwrite_lp"], ("lp_mpq.c", "write_lp_mpq.c"), floor=4),
                   lambda prog, tier: trunc.run(prog)],
         "technique": "lossy-conversion sink census over the writer and reader call-graph closures; writer/reader agreement of type-resolved "
@@ -417,7 +417,7 @@ PROPS = {
                   lambda prog, tier: tokens.run_mps(prog),
                   lambda prog, tier: tokens.run_sections(prog, "mpq_ILLwrite_mps", {"ENDATA"}, print_funcs={"mpq_ILLprint_report": 1}, token_ok=lambda t: t.isupper() and len(t) >= 2),
                   lambda prog, tier: idxclass.run(prog, scope_units=("mps_mpq.c", "rawlp_mpq.c")),
-                  lambda prog, tier: sentinel.run(prog), lambda prog, tier: appendinit.run(prog), lambda prog, tier: appendinit.run_repack(prog), lambda prog, tier: appendinit.run_remap(prog, shared_eff(prog)), lambda prog, tier: fmt.run_args(prog), lambda prog, tier: rescan.run(prog), lambda prog, tier: defaults.run(prog), lambda prog, tier: defaults.run_bndflag(prog),
+                  lambda prog, tier: sentinel.run(prog), lambda prog, tier: appendinit.run(prog), lambda prog, tier: appendinit.run_repack(prog), lambda prog, tier: appendinit.run_remap(prog, shared_eff(prog)), lambda prog, tier: fmt.run_args(prog), lambda prog, tier: rescan.run(prog), lambda prog, tier: defaults.run(prog), lambda prog, tier: defaults.run_bndflag(prog), lambda prog, tier: defaults.run_msgmeans(prog),
                   lambda prog, tier: fullscan.run(prog, ["mpq_ILLwrite_mps"], ("mps_mpq.c",), floor=6),
                   lambda prog, tier: fullscan.run_rowfilter(prog), lambda prog, tier: fullscan.run_rangepair(prog), lambda prog, tier: trunc.run(prog)],
         "technique": "lossy-conversion sink census over writer/reader closures; table agreement (section names, bound mnemonics, row-type "
@@ -436,8 +436,8 @@ PROPS = {
         "rules": [lambda prog, tier: exact.run(prog, {"READ": {"roots": ["mpq_QSread_prob", "mpq_QSget_prob"], "closure": True, "word": True}},
                                                floors=[("exact literal parser reachable from QSread_prob", ["mpq_QSread_prob"], "mpq_EGlpNumReadStrXc", 1),
                                                        ("exact literal parser reachable from ILLget_value", ["mpq_ILLget_value"], "mpq_EGlpNumReadStrXc", 1)]),
-                  lambda prog, tier: rescan.run(prog), lambda prog, tier: decacc.run(prog), lambda prog, tier: defaults.run(prog), lambda prog, tier: defaults.run_bndflag(prog), lambda prog, tier: strscan.run(prog), lambda prog, tier: strscan.run_advance(prog),
-                  lambda prog, tier: rawidx.run(prog), lambda prog, tier: digitseen.run(prog)],
+                  lambda prog, tier: rescan.run(prog), lambda prog, tier: decacc.run(prog), lambda prog, tier: defaults.run(prog), lambda prog, tier: defaults.run_bndflag(prog), lambda prog, tier: defaults.run_msgmeans(prog), lambda prog, tier: strscan.run(prog), lambda prog, tier: strscan.run_advance(prog),
+                  lambda prog, tier: rawidx.run(prog), lambda prog, tier: digitseen.run(prog), lambda prog, tier: digitseen.run_expmark(prog)],
         "technique": "lossy-conversion sink census over the reader call-graph closure of the rational instantiation (type-resolved, after "
                      "preprocessing: the #ifdef between the exact and the double literal reader is resolved as the build resolves it)",
         "explanation": "Decides one structural clause of C10: on every call path from mpq_QSread_prob / mpq_QSget_prob to the stored problem "
@@ -460,7 +460,7 @@ PROPS = {
                   lambda prog, tier: strscan.run(prog), lambda prog, tier: strscan.run_advance(prog),
                   lambda prog, tier: rawidx.run(prog),
                   lambda prog, tier: idx.run(prog),
-                  lambda prog, tier: lenm1.run(prog), lambda prog, tier: decacc.run(prog), lambda prog, tier: digitseen.run(prog), lambda prog, tier: strcap.run(prog), lambda prog, tier: nulterm.run(prog),
+                  lambda prog, tier: lenm1.run(prog), lambda prog, tier: decacc.run(prog), lambda prog, tier: digitseen.run(prog), lambda prog, tier: digitseen.run_expmark(prog), lambda prog, tier: strcap.run(prog), lambda prog, tier: nulterm.run(prog),
                   lambda prog, tier: fmt.run(prog, scope=lambda f, _r=set(prog.reachable([prog.require_fn(r).key for r in
                                                                                           ("mpq_QSread_prob", "mpq_QSget_prob", "mpq_QSread_basis", "mpq_QSread_and_load_basis")])): f.key in _r, floor=200)],
         "technique": "census and classification of buffer-writing calls in the reader call-graph closures (destination array sizes from the "
@@ -823,6 +823,20 @@ for _pid in ("C07", "C08"):
         "ILLsymboltab::the_hash, the last definition of that field (a stringhash assignment, or a callee that computes it from its string "
         "parameter) names the string handed to add_string, and no call that may resize the table lies in between - otherwise a renamed "
         "entry cannot be found and its name is accepted a second time (the LP writer's repaired names).")
+_ADD.setdefault("C16", {})
+_ADD["C16"]["explanation"] = _ADD["C16"].get("explanation", "") + (
+    " (R-SENTKEPT) in the expansions of the array conversion macros, a store of an infinity sentinel into an element is not followed within the "
+    "same iteration by another store into that element: the special case for infinite values is not undone by the general conversion.")
+for _pid in ("C10", "C11"):
+    _ADD.setdefault(_pid, {})
+    _ADD[_pid]["explanation"] = _ADD[_pid].get("explanation", "") + (
+        " (R-EXPMARK) no return of the exact literal scanner hands back a count that includes an exponent marker after which no digit was "
+        "consumed (names may begin with e: '3ex' is 3 times ex).")
+for _pid in ("C08", "C09", "C10"):
+    _ADD.setdefault(_pid, {})
+    _ADD[_pid]["explanation"] = _ADD[_pid].get("explanation", "") + (
+        " (R-MSGMEANS) no caller makes a store depend on the NULL-ness of the message returned by a bound setter whose messages accompany both "
+        "applied and refused requests (the integer mark of an MPS 'UI' record).")
 _ADD.setdefault("C17", {})
 _ADD["C17"]["explanation"] = _ADD["C17"].get("explanation", "") + (
     " (R-PUBSTRUCT) a caller-supplied array of a public function is not subscripted inside a loop whose bound is a dimension of the internal "
